@@ -2,8 +2,12 @@
 use std::time::Instant;
 use vcore::report::*;
 
+#[macro_use]
+mod builders;
+mod c0103;
 mod c16;
 mod c17;
+mod cs;
 mod real;
 mod util;
 
@@ -44,6 +48,8 @@ fn main() {
     let run = RunInfo { property: property.clone(), tier, seed, start: Instant::now(), verif_dir, replay_only };
     quiet_panics();
     let summary = match property.as_str() {
+        "C01" => c0103::run(&run, false),
+        "C03" => c0103::run(&run, true),
         "C16" => c16::run(&run),
         "C17" => c17::run(&run),
         _ => {
